@@ -429,6 +429,14 @@ class Cofactor(CompoundTensorOperator):
 
     __slots__ = ()
 
+    def __new__(cls, A):
+        """Create new Cofactor."""
+        sh = A.ufl_shape
+        if isinstance(A, Zero) and len(sh) == 2 and sh[0] == sh[1] and sh[0] > 1 and not A.ufl_free_indices:
+            # All minors of the zero matrix vanish
+            return Zero(sh)
+        return CompoundTensorOperator.__new__(cls)
+
     def __init__(self, A):
         """Initialise."""
         CompoundTensorOperator.__init__(self, (A,))
